@@ -7,11 +7,12 @@ EXTENDS Naturals, Integers, Sequences, TLC, Json
 CONSTANTS TraceFile, Deviations        \* Deviations: named known findings (KNOWN_FINDINGS.json) a rejection may be explained with; {} = the property as stated
 Traces == ndJsonDeserialize(TraceFile)
 VARIABLES tr, l, ready, last, glob,      \* glob: the global limit as configured NOW (events [k |-> "global", q])
+          old,                           \* global count: the server currently answers "RequestIDTooOld" (nothing it says is applied)
           hp, hc                         \* requests that STAY in flight (events "hold" / "unhold"): admitted before / since the last readiness flip or server answer
-vars == <<tr, l, ready, last, glob, hp, hc>>
+vars == <<tr, l, ready, last, glob, old, hp, hc>>
 T == Traces[tr]
 Ev == T.events[l]
-Init == tr \in DOMAIN Traces /\ l = 1 /\ ready = FALSE /\ last = [k |-> "none", q |-> 0, b |-> 0] /\ glob = T.global /\ hp = 0 /\ hc = 0
+Init == tr \in DOMAIN Traces /\ l = 1 /\ ready = FALSE /\ last = [k |-> "none", q |-> 0, b |-> 0] /\ glob = T.global /\ hp = 0 /\ hc = 0 /\ old = FALSE
 \* what the measured admission must be.  Requests in flight count whichever limiter admitted them (hp + hc): the property speaks of the
 \* instance's in-flight concurrency.  cnt: the requests in flight the limit is compared with
 Max0(x) == IF x > 0 THEN x ELSE 0
@@ -55,7 +56,11 @@ Next == /\ l <= Len(T.events) /\ Accept /\ l' = l + 1 /\ tr' = tr
         /\ glob' = IF Ev.k = "global" THEN Ev.q ELSE glob
         /\ hp' = IF Ev.k = "unhold" THEN 0 ELSE IF Switch THEN hp + hc ELSE hp
         /\ hc' = IF Ev.k = "unhold" \/ Switch THEN 0 ELSE IF Ev.k = "hold" THEN hc + Ev.got ELSE hc
-        /\ last' = IF Ev.k \in {"reply", "replyerr", "replybad"} THEN [k |-> Ev.k, q |-> Ev.q, b |-> Ev.b]
+        /\ old' = IF Ev.k = "acq" THEN Ev.gk = "tooold" ELSE old
+        \* the configured limit changes while the server answers nothing that is applied: the limiter restarts from its reserve, an answer given
+        \* under the old configuration is void (unless the instance had fallen back to the local limit: that stays)
+        /\ last' = IF Ev.k = "global" /\ old /\ last.k # "fail" THEN [k |-> "none", q |-> 0, b |-> 0]
+                   ELSE IF Ev.k \in {"reply", "replyerr", "replybad"} THEN [k |-> Ev.k, q |-> Ev.q, b |-> Ev.b]
                    ELSE IF Ev.k = "acq" /\ Ev.gk # "tooold" THEN [k |-> Ev.gk, q |-> Ev.q, b |-> 0] ELSE last
 Spec == Init /\ [][Next]_vars
 Judge == (l <= Len(T.events) /\ ~Accept) => PrintT(<<"REJECT", T.id, l>>)
